@@ -16,6 +16,27 @@ pub mod sinkops;
 fn main() {
     // silence panic messages: a panic is reported as a protocol value
     panic::set_hook(Box::new(|_| {}));
+    // watchdog: a case that runs longer than H5V_CASE_TIMEOUT seconds (default 60) is reported as
+    // `HANG` and the process exits with code 3 (the driver script bisects down to the case)
+    let limit: u64 = std::env::var("H5V_CASE_TIMEOUT").ok().and_then(|s| s.parse().ok()).unwrap_or(60);
+    static STARTED: std::sync::atomic::AtomicU64 = std::sync::atomic::AtomicU64::new(0);
+    static SERIAL: std::sync::atomic::AtomicU64 = std::sync::atomic::AtomicU64::new(0);
+    let t0 = std::time::Instant::now();
+    std::thread::spawn(move || loop {
+        std::thread::sleep(std::time::Duration::from_millis(500));
+        let serial = SERIAL.load(std::sync::atomic::Ordering::SeqCst);
+        let started = STARTED.load(std::sync::atomic::Ordering::SeqCst);
+        if serial % 2 == 1 && t0.elapsed().as_secs() > started + limit {
+            // odd serial = a case is in flight
+            // the main thread holds the stdout lock: write to the descriptor directly
+            use std::os::fd::FromRawFd;
+            let mut so = unsafe { std::fs::File::from_raw_fd(1) };
+            let _ = writeln!(so, "\u{1}HANG no result after {} s", limit);
+            let _ = so.flush();
+            std::mem::forget(so);
+            std::process::exit(3);
+        }
+    });
     let stdin = io::stdin();
     let stdout = io::stdout();
     let mut out = io::BufWriter::new(stdout.lock());
@@ -27,7 +48,10 @@ fn main() {
         let mut fields = line.split('\t');
         let engine = fields.next().unwrap_or("");
         let fields: Vec<&str> = fields.collect();
+        STARTED.store(t0.elapsed().as_secs(), std::sync::atomic::Ordering::SeqCst);
+        SERIAL.fetch_add(1, std::sync::atomic::Ordering::SeqCst);
         let res = panic::catch_unwind(|| engines::dispatch(engine, &fields));
+        SERIAL.fetch_add(1, std::sync::atomic::Ordering::SeqCst);
         let s = match res {
             Ok(s) => s,
             Err(e) => {
